@@ -496,9 +496,11 @@ def r10_flag_writers_and_pairing(facts):
     exits = []
     for s in blk["stmts"][lo:hi + 1]:
         e = stmt_expr(s)
-        for x in walk(e):
-            if x.get("k") in ("Return", "Break", "Continue"):
+        for x, xctx in walk_ctx(e):
+            if x.get("k") == "Return":
                 exits.append(x)
+            if x.get("k") in ("Break", "Continue") and not any(fr[0] == "loop" for fr in xctx):
+                exits.append(x)         # a break/continue that leaves the statement (loop-local ones do not)
             if x.get("k") == "Match" and str(x.get("source", "")).startswith("TryDesugar"):
                 exits.append(x)
     c.check(not exits, "pairing:no-early-exit", loc(bw, inv), "no return/break/? between stop and restore",
@@ -636,7 +638,7 @@ class PassModel:
     def slot_owner(self, scrut):
         """scrutinee reads the content of n.delta or n.gradient -> (n, field)"""
         s = peel(scrut)
-        if s.get("k") == "Call" and callee(s) == CELL + "take":
+        if s.get("k") == "Call" and (callee(s) == CELL + "take" or (callee(s) == CELL + "replace" and _is_none(strip(s["args"][1])))):
             root, chain = field_chain(s["args"][0])
             if chain == [self.f_delta] and var_of(root):
                 return var_of(root), self.f_delta
@@ -678,6 +680,8 @@ class PassModel:
                 root, chain = field_chain(n["args"][0])
                 if chain == [self.f_delta]:
                     val = strip(n["args"][1])
+                    if callee(n) == CELL + "replace" and _is_none(val):
+                        continue        # `replace(None)` is `take()`
                     out.append((n, ctx, var_of(root), val))
         return out
 
@@ -1095,26 +1099,48 @@ def r24_count_protocol(facts):
             c.bad(inst_base + "#" + m, loc(b, n), "consumer counter written with Cell::%s" % m)
             continue
         val = strip(n["args"][1])
-        form = None   # ('inc'|'dec', oldvar)
-        if val.get("k") == "Binary" and val["op"] in ("Add", "Sub") and lit_value(val["r"]) == 1:
-            old = strip(val["l"])
-            oldv = var_of(old)
-            src = None
-            if oldv and oldv in binds and binds[oldv][0] == "let":
-                src = peel(binds[oldv][1])
-            elif old.get("k") == "Call":
-                src = peel(old)
-            if src is not None and src.get("k") == "Call" and callee(src) == CELL + "get":
-                r2, ch2 = field_chain(src["args"][0])
-                if ch2 and ch2[-1] == counter and var_of(r2) == owner:
-                    form = ("inc" if val["op"] == "Add" else "dec", oldv)
+
+        def reading(e):
+            """e reads owner's counter: ('prev'|'new') relative to this write, or None"""
+            e0 = strip(e)
+            v = var_of(e0) if e0.get("k") in ("VarRef", "UpvarRef") else None
+            src, at = None, None
+            if v and v in binds and binds[v][0] == "let" and binds[v][1] is not None:
+                src, at = peel(binds[v][1]), binds[v][1].get("sp")
+            elif e0.get("k") == "Call":
+                src, at = peel(e0), e0.get("sp")
+            if src is None or src.get("k") != "Call" or callee(src) != CELL + "get":
+                return None
+            r2, ch2 = field_chain(src["args"][0])
+            if not (ch2 and ch2[-1] == counter and var_of(r2) == owner):
+                return None
+            if e0.get("k") == "Call" and any(x is e0 for x in walk(n)):
+                return "prev"       # an argument of the write itself is evaluated before it
+            return "prev" if tuple(at[:2]) <= tuple(n["sp"][:2]) else "new"
+
+        form = None
+        if val.get("k") == "Binary" and val["op"] in ("Add", "Sub") and lit_value(val["r"]) == 1 and reading(val["l"]) == "prev":
+            form = "inc" if val["op"] == "Add" else "dec"
         if form is None:
             c.bad(inst_base + "#form", loc(b, n), "counter write is not `set(get() +/- 1)` on the same node: %s" % show(val)[:100])
             continue
-        kind, oldv = form
-        if kind == "inc":
+
+        def guarded_by_count(ctx2, want_prev, want_new):
+            for fr in ctx2:
+                if fr[0] == "if" and fr[2] == "then":
+                    cond = strip(fr[1]["cond"])
+                    if cond.get("k") == "Binary" and cond["op"] == "Eq":
+                        for x, y in ((cond["l"], cond["r"]), (cond["r"], cond["l"])):
+                            k_ = lit_value(y)
+                            rd = reading(x)
+                            if rd == "prev" and k_ == want_prev:
+                                return True
+                            if rd == "new" and k_ == want_new:
+                                return True
+            return False
+
+        if form == "inc":
             ok_body = b["def"] == eng["propagate_consumers"]["def"]
-            # control-dependent on owner.is_tracked.get()
             guard = False
             for fr in ctx:
                 if fr[0] == "if" and fr[2] == "then":
@@ -1125,15 +1151,12 @@ def r24_count_protocol(facts):
                             guard = True
             c.check(ok_body and guard, "count:increment", loc(b, n),
                     "a child's counter is incremented only in propagate_consumers and only if that child is tracked",
-                    "counter increment %s" % ("is not guarded by the child's is_tracked flag (untracked children are never delivered to: residue)" if ok_body else "outside propagate_consumers"))
-            # recursion guard
+                    "counter increment %s" % ("is not guarded by exactly the child's is_tracked flag (children that are never delivered to keep a residue; "
+                                              "children that are delivered to but not counted underflow)" if ok_body else "outside propagate_consumers"))
             rec_ok = None
             for n2, ctx2 in walk_ctx(facts.root(b)):
                 if n2.get("k") == "Call" and resolved(n2) == eng["propagate_consumers"]["def"] and var_of(n2["args"][0]) == owner:
-                    rec_ok = False
-                    for fr in ctx2:
-                        if fr[0] == "if" and fr[2] == "then" and _cmp_var_const(fr[1]["cond"], oldv, "Eq", 0):
-                            rec_ok = True
+                    rec_ok = guarded_by_count(ctx2, 0, 1)
                     c.check(rec_ok, "count:descend-once", loc(b, n2),
                             "descent into a child only when its previous count was 0 (no double counting below shared nodes)",
                             "recursive propagate_consumers is not guarded by `previous count == 0`: nodes below a shared child are counted once per path")
@@ -1141,7 +1164,6 @@ def r24_count_protocol(facts):
                 c.bad("count:descend-once", loc(b, n), "no recursive descent into tracked children found")
         else:
             ok_body = b["def"] == eng["backward"]["def"]
-            # control-dependent on the slot being Some
             guard = False
             for fr in ctx:
                 if fr[0] == "if" and fr[2] == "then":
@@ -1158,12 +1180,9 @@ def r24_count_protocol(facts):
             rec = None
             for n2, ctx2 in walk_ctx(facts.root(b)):
                 if n2.get("k") == "Call" and resolved(n2) == eng["backward"]["def"] and var_of(n2["args"][0]) == owner:
-                    rec = False
-                    for fr in ctx2:
-                        if fr[0] == "if" and fr[2] == "then" and _cmp_var_const(fr[1]["cond"], oldv, "Eq", 1):
-                            rec = True
+                    rec = guarded_by_count(ctx2, 1, 0)
                     c.check(rec, "count:recurse-at-zero", loc(b, n2),
-                            "recursion into a child only when the delivered delta was its last outstanding one (previous count == 1)",
+                            "recursion into a child only when the delivered delta was its last outstanding one (previous count == 1 / new count == 0)",
                             "recursive backward on a child is not guarded by its consumer count reaching zero: its derivative runs once per consumer (exponential on self-products) with a partial adjoint")
                     seed = strip(n2["args"][1])
                     c.check(_is_none(seed), "count:recurse-seed", loc(b, n2), "the child continues from its pending delta (seed None)",
